@@ -25,7 +25,7 @@ theorem popN_spec (futs : List FState) (ws : List Nat) (n : Nat) :
       · simp only [hw, if_true, List.filter_cons_of_pos, List.take_succ_cons, List.drop_succ_cons]
         exact ⟨by rw [(ih k).1], (ih k).2⟩
       · have hw' : isPend futs w = false := by simpa using hw
-        simp [hw', List.filter_cons]
+        simp [hw']
         exact ih (k + 1)
 
 theorem setAll_length (futs : List FState) (v : FState) (ws : List Nat) :
